@@ -98,22 +98,23 @@ def cache_combos(tier):
 def load_caches(ck, sh, mm, kinds, order):
     """(a): every load impedance after a visit to f0 equals the fresh value at f."""
     M = sh.mininec
-    if True:
+    for gname in ('G2', 'G4'):        # G4: the later wire meets the earlier one with its SECOND end: the junction pulse is the last one its load evaluates
         if True:
-            def fn(kinds=kinds, order=order):
+            def fn(kinds=kinds, order=order, gname=gname):
                 f0, f = pos('f0', 0.1, 1000), pos('f', 0.1, 1000)
                 P = _params(True)
                 with symx.object_arrays():
-                    hist = catalogue.build(M, 'G2', f=f0)
+                    hist = catalogue.build(M, gname, f=f0)
                     lh = _mk_loads(M, hist, kinds, P)
-                    fresh = catalogue.build(M, 'G2', f=f)
+                    fresh = catalogue.build(M, gname, f=f)
                     lf = _mk_loads(M, fresh, kinds, P)
                     seq = [lh[i] for i in order if i < len(lh)] + lh[2:]
                     for ld in seq:                      # the visit at f0 (fills caches)
                         for p in ld.pulses:
                             ld.impedance(f0, p)
                     zh, zf = [], []
-                    for ld_h, ld_f in zip(lh, lf):
+                    pairs = sorted(zip(lh, lf), key=lambda t_: seq.index(t_[0]))          # at f in the order of the visit as well
+                    for ld_h, ld_f in pairs:
                         for p_h, p_f in zip(ld_h.pulses, ld_f.pulses):
                             zh.append(ld_h.impedance(f, p_h))
                             zf.append(ld_f.impedance(f, p_f))
@@ -123,17 +124,17 @@ def load_caches(ck, sh, mm, kinds, order):
                 return [('load %d: impedance(f) after visiting f0 = fresh impedance(f)' % i, eq_term(a, b))
                         for i, (a, b) in enumerate(zip(o['zh'], o['zf']))]
 
-            def replay(c, gname, out, kinds=kinds, order=order):
+            def replay(c, gname_, out, kinds=kinds, order=order, gname=gname):
                 P = _conc_params(c)
-                hist = catalogue.build(mm, 'G2', f=c['f0'])
+                hist = catalogue.build(mm, gname, f=c['f0'])
                 lh = _mk_loads(mm, hist, kinds, P)
-                fresh = catalogue.build(mm, 'G2', f=c['f'])
+                fresh = catalogue.build(mm, gname, f=c['f'])
                 lf = _mk_loads(mm, fresh, kinds, P)
                 seq = [lh[i] for i in order if i < len(lh)] + lh[2:]
                 for ld in seq:
                     for p in ld.pulses:
                         ld.impedance(c['f0'], p)
-                for ld_h, ld_f in zip(lh, lf):
+                for ld_h, ld_f in sorted(zip(lh, lf), key=lambda t_: seq.index(t_[0])):
                     for p_h, p_f in zip(ld_h.pulses, ld_f.pulses):
                         a, b = ld_h.impedance(c['f'], p_h), ld_f.impedance(c['f'], p_f)
                         if not close(a, b, 1e-12, 1e-300):
@@ -142,7 +143,7 @@ def load_caches(ck, sh, mm, kinds, order):
                                     '%s on pulse %d: impedance at %r MHz after a visit to %r MHz is %r, fresh model gives %r'
                                     % (cls, p_h.idx + 1, c['f'], c['f0'], a, b), dict(kind='load-cache', kinds=kinds, order=order))
                 return None
-            prove_paths(ck, 'cache-%s-o%s' % ('+'.join(kinds), ''.join(map(str, order))), fn, goals, replay, max_paths=64,
+            prove_paths(ck, 'cache-%s-%s-o%s' % (gname, '+'.join(kinds), ''.join(map(str, order))), fn, goals, replay, max_paths=64,
                         sqrt_mode='uf-free', timeout_ms=5000 if ck.tier == 'quick' else 30000)
 
 
